@@ -200,3 +200,20 @@ package fs
 //@ func unmount
 //@   trusted
 //@   modifies nothing
+
+// ---- configuration plumbing of NewFilesystem (C01, C07, C15) ----
+// The verification switches, the prefetch switches and sizes of the returned filesystem are the configured ones (a
+// swapped or dropped field would silently turn verification off or prefetch on), and the opaque-xattr flavour handed
+// to the layer resolver is the one the caller chose with WithOverlayOpaqueType.
+//@ ghost resolverOpq int quiet
+//@ func fs/layer.NewResolver
+//@   trusted
+//@   modifies resolverOpq
+//@   ensures resolverOpq == overlayOpaqueType && (result1 == nil ==> result0 != nil)
+//@ func NewFilesystem
+//@   props C01,C07,C15
+//@   taggedonly
+//@   requires forall j int :: 0 <= j && j < len(opts) ==> opts[j] != nil
+//@   ensures[C07] err == nil ==> resolverOpq == fsOpts.overlayOpaqueType
+//@   ensures[C01] err == nil ==> as(result0, "*filesystem").disableVerification == cfg.DisableVerification && as(result0, "*filesystem").allowNoVerification == cfg.AllowNoVerification
+//@   ensures[C15] err == nil ==> as(result0, "*filesystem").noprefetch == cfg.NoPrefetch && as(result0, "*filesystem").noBackgroundFetch == cfg.NoBackgroundFetch && as(result0, "*filesystem").prefetchSize == cfg.PrefetchSize
